@@ -88,7 +88,7 @@ Inductive ty :=
 | TU64                     (* uint64:          e.uint64(x)         <->  d.uint64()       *)
 | TBool                    (* bool:            e.int(b2i(b))       <->  d.int() != 0     *)
 | TStr                     (* string / []byte: e.string / e.bytes  <->  d.string / d.bytes *)
-| TList (elem : ty)        (* e.int(len(l)); for ... { elem }     <->  make([]T, d.int()); for ... *)
+| TList (elem : ty)        (* e.int(len(l)); for ... { elem }     <->  make([]T, d.count()); for ... *)
 | TRec (fields : list (string * ty))   (* fields in wire order, each with the Go field it carries *)
 | TUnion (alts : list (string * ty)).  (* e.int(tag); payload     <->  switch d.int() { case tag: ... };
                                           the tag is the position in the list *)
@@ -207,6 +207,11 @@ Definition d_str (d : dst) : result (bytes * dst) :=
                {| d_p := d_p d1; d_s := skipn (Z.to_nat n) (d_s d1) |})
   end.
 
+(* d.count(): n := d.int(); if n < 0 || n > len(d.p) { panic(...) }
+   (every element of every sequence occupies at least one byte of d.p) *)
+Definition count_ok (n : Z) (d : dst) : bool :=
+  negb ((n <? 0) || (Z.of_nat (length (d_p d)) <? n)).
+
 Definition rmap {A B : Type} (f : A -> B) (r : result (A * dst)) : result (B * dst) :=
   match r with Ok (a, d) => Ok (f a, d) | Err e => Err e end.
 
@@ -251,8 +256,8 @@ Fixpoint dec (t : ty) (d : dst) {struct t} : result (val * dst) :=
       match d_int d with
       | Err e => Err e
       | Ok (n, d1) =>
-          if n <? 0 then Err (EPanic "makeslice: len out of range")
-          else rmap VList (dec_elems (dec te) (Z.to_nat n) d1)
+          if count_ok n d1 then rmap VList (dec_elems (dec te) (Z.to_nat n) d1)
+          else Err (EPanic "invalid sequence length")
       end
   | TRec fs => rmap VRec (dec_fields dec fs d)
   | TUnion alts =>
@@ -262,6 +267,24 @@ Fixpoint dec (t : ty) (d : dst) {struct t} : result (val * dst) :=
           if tag <? 0 then Ok (VNil, d1)   (* switch: no case matches, c stays nil *)
           else dec_alt dec tag d1 alts (Z.to_nat tag)
       end
+  end.
+
+(* Schemas the decoder's length check is sound for: the elements of every
+   sequence occupy at least one byte of the program section. *)
+Fixpoint nonempty (t : ty) : bool :=
+  match t with
+  | TRec fs => (fix any (fs : list (string * ty)) : bool :=
+                  match fs with [] => false | (_, tf) :: fr => nonempty tf || any fr end) fs
+  | _ => true     (* a varint: at least one byte *)
+  end.
+Fixpoint wf_ty (t : ty) : bool :=
+  match t with
+  | TList te => nonempty te && wf_ty te
+  | TRec fs => (fix all (fs : list (string * ty)) : bool :=
+                  match fs with [] => true | (_, tf) :: fr => wf_ty tf && all fr end) fs
+  | TUnion alts => (fix all (fs : list (string * ty)) : bool :=
+                      match fs with [] => true | (_, tf) :: fr => wf_ty tf && all fr end) alts
+  | _ => true
   end.
 
 (* The values a schema describes, with the ranges of the Go types behind them
